@@ -91,6 +91,11 @@ class Check(CheckBase):
                                    "ws": ws, "L": L, "tier": tier})
                     cs.append({"label": "A/%s/%s/ws%d%d/nofault-free" % (fn, shape, ws[0], ws[1]), "part": "A", "fn": fn, "shape": shape,
                                "ws": ws, "L": 0, "tier": tier})
+            # the same request after earlier successful requests on the same object (no state may carry over)
+            for prior in ("query-after-15-blank-reads", "command-after-25-blank-reads"):
+                for shape in ("N", "NN,a"):
+                    cs.append({"label": "A/%s/%s/ws00/L4/after-%s" % (fn, shape, prior), "part": "A", "fn": fn, "shape": shape,
+                               "ws": (0, 0), "L": 4, "tier": tier, "prior": prior})
         e3, m3 = stack.load_ebb3()
         for m in public_methods(m3.EBBMotionWrap):
             if m in EXEMPT_B:
@@ -160,8 +165,13 @@ class Check(CheckBase):
             if wfault == 2:
                 raise OSError("write failed")
 
+        base = {"reads": 0}
+
         def responder(port):
-            i = port.n_reads - 1
+            if base.get("prior") is not None:
+                k = port.n_reads - 1
+                return b"" if k < base["prior"][0] else base["prior"][1]
+            i = port.n_reads - 1 - base["reads"]
             if run.branch(z3.IntVal(i) < E.t):
                 return b"\r\n" if run.branch(blank_crlf.t) else b""
             if state["after"] or kind == 3:
@@ -176,6 +186,18 @@ class Check(CheckBase):
         port = FakePort(responder=responder, on_write=on_write, sym=True)
         obj.port = port
         tag = "A/%s" % case["fn"]
+        if case.get("prior"):
+            if case["prior"].startswith("query"):
+                base["prior"] = (15, b"QS,1,2\r\n")
+                ok0 = obj.query("QS") is not None
+            else:
+                base["prior"] = (25, b"SM\r\n")
+                ok0 = obj.command("SM,1,0,0") is True
+            base["prior"] = None
+            assert ok0 and obj.err is None, "the earlier request must succeed against a conforming device"
+            base["reads"] = port.n_reads
+            port.writes[:] = []
+            port.n_reads_main0 = port.n_reads
         try:
             ret = getattr(obj, case["fn"])(request)
         except Exception as ex:
@@ -199,7 +221,7 @@ class Check(CheckBase):
         fn = case["fn"]
         if wfault:
             run.reach("A:write-exception")
-            run.prove(tag + ":write-fault:reads-nothing", z3.BoolVal(port.n_reads == 0))
+            run.prove(tag + ":write-fault:reads-nothing", z3.BoolVal(port.n_reads - base["reads"] == 0))
             if fn == "command":
                 run.prove(tag + ":write-fault:latched-unless-ignored-name", z3.BoolVal(err_set) == z3.Not(ignored))
                 run.prove(tag + ":write-fault:returns-False-iff-latched", z3.BoolVal(ret is (not err_set)))
@@ -209,7 +231,7 @@ class Check(CheckBase):
             return
         # ---- number of reads consumed (alignment) ----------------------------------------------------------------
         expected_reads = z3.IntVal(26) if kind == 3 else z3.If(E.t >= 26, 26, E.t + 1)
-        run.prove(tag + ":reads-consumed", z3.IntVal(port.n_reads) == expected_reads, info={"reads": port.n_reads})
+        run.prove(tag + ":reads-consumed", z3.IntVal(port.n_reads - base["reads"]) == expected_reads, info={"reads": port.n_reads - base["reads"]})
         timeout = E.t >= 26
         if run.branch(timeout) or kind == 3:
             run.reach("A:timeout")
@@ -259,12 +281,14 @@ class Check(CheckBase):
         method, fault = case["method"], case["fault"]
         # the fault is injected at a solver-chosen request index (0..5) of the method
         at = run.int("fault_at_request", 0, 5) if fault != "none" else None
-        st = {"req": -1, "injected": False, "mode": None}
+        st = {"req": -1, "injected": False, "mode": None, "writes_after": 0}
 
         def on_write(port, payload):
             st["req"] += 1
             port.queue = []
             st["mode"] = None
+            if st["injected"]:
+                st["writes_after"] += 1
             if at is not None and not st["injected"] and run.branch(z3.IntVal(st["req"]) == at.t):
                 st["injected"] = True
                 st["mode"] = fault
@@ -318,6 +342,9 @@ class Check(CheckBase):
             if not exempt:
                 run.prove(tag + ":failure-latched", z3.BoolVal(obj.err is not None))
             run.prove(tag + ":failure-value-returned", z3.BoolVal(is_failure(ret)), info={"returned": repr(ret)[:100]})
+            if not exempt:
+                run.prove(tag + ":nothing-transmitted-after-the-recorded-failure", z3.BoolVal(st["writes_after"] == 0),
+                          info={"writes_after_fault": st["writes_after"]})
         else:
             run.reach("B:no-fault")
             run.prove(tag + ":no-error-without-fault", z3.BoolVal(obj.err is None), info={"err": repr(obj.err)[:200]})
@@ -347,8 +374,12 @@ class Check(CheckBase):
             if wfault == 2:
                 raise OSError("write failed")
 
+        base = {"reads": 0, "prior": None}
+
         def responder(port):
-            k = port.n_reads - 1
+            if base["prior"] is not None:
+                return b"" if port.n_reads - 1 < base["prior"][0] else base["prior"][1]
+            k = port.n_reads - 1 - base["reads"]
             if k < E:
                 return blank
             if state["after"] or kind == 3:
@@ -364,11 +395,23 @@ class Check(CheckBase):
         port = FakePort(responder=responder, on_write=on_write)
         obj.port = port
         fn = case["fn"]
+        if case.get("prior"):
+            if case["prior"].startswith("query"):
+                base["prior"] = (15, b"QS,1,2\r\n")
+                obj.query("QS")
+            else:
+                base["prior"] = (25, b"SM\r\n")
+                obj.command("SM,1,0,0")
+            base["prior"] = None
+            base["reads"] = port.n_reads
+            port.writes[:] = []
+            if obj.err is not None:
+                return {"earlier_request_failed": obj.err}
         try:
             ret = getattr(obj, fn)(request)
         except Exception as ex:
             return {"request": request, "raised": repr(ex)}
-        got = {"written": [w.concrete_str() for w in port.writes], "reads": port.n_reads, "ret": ret, "err": obj.err is not None}
+        got = {"written": [w.concrete_str() for w in port.writes], "reads": port.n_reads - base["reads"], "ret": ret, "err": obj.err is not None}
         ignored = name.lower() in IGNORED
         exp = {}
         if wfault:
@@ -408,12 +451,14 @@ class Check(CheckBase):
         method, fault = case["method"], case["fault"]
         i = cex["inputs"]
         at = int(i.get("fault_at_request", -1))
-        st = {"req": -1, "injected": False, "mode": None}
+        st = {"req": -1, "injected": False, "mode": None, "writes_after": 0}
 
         def on_write(port, payload):
             st["req"] += 1
             port.queue = []
             st["mode"] = None
+            if st["injected"]:
+                st["writes_after"] += 1
             if fault != "none" and not st["injected"] and st["req"] == at:
                 st["injected"] = True
                 st["mode"] = fault
@@ -459,6 +504,8 @@ class Check(CheckBase):
                 bad["err"] = None
             if not is_failure(ret):
                 bad["returned"] = repr(ret)
+            if method not in ("reboot", "bootload") and st["writes_after"]:
+                bad["writes_after_fault"] = st["writes_after"]
             if bad:
                 bad.update({"call": "%s%r" % (method, tuple(args)), "fault": fault, "at_request": at})
                 return bad
